@@ -261,10 +261,10 @@ theorem enables_agree {e : ECfg} {wv zv : List Nat} {E : EState} {D : Chunk} (hc
   cases hu : e.useZ
   · have := hc.noz hu
     simp only [this, length_nil] at hz
-    simp [hu]
+    simp
     rw [hnv]; omega
   · obtain ⟨h1, h2, h3⟩ := hc.znv hu
-    simp only [hu, if_true, Bool.not_true, Bool.false_or, Bool.true_and, Bool.and_true]
+    simp only [if_true, Bool.not_true, Bool.false_or, Bool.true_and, Bool.and_true]
     constructor
     · rw [Bool.eq_iff_iff]; simp only [Bool.and_eq_true, decide_eq_true_eq]; omega
     · rw [Bool.eq_iff_iff]; simp only [Bool.and_eq_true, decide_eq_true_eq]; omega
